@@ -346,13 +346,28 @@ Proof.
   apply Forall_app. split; [apply H; left; reflexivity|apply IH; intros y Hy; apply H; right; exact Hy].
 Qed.
 
-Lemma bool_attr_ok name b : name_ok (s2l name) -> attrs_ok (bool_attr name b).
-Proof. intros H. destruct b; [constructor; [exact H|constructor]|constructor]. Qed.
+Lemma insert_attr_ok kv l : name_ok (fst kv) -> attrs_ok l -> attrs_ok (insert_attr kv l).
+Proof.
+  intros Hk Hl. induction Hl as [|x l Hx Hl IH]; cbn [insert_attr]; [constructor; [exact Hk|constructor]|].
+  destruct (key_ltb (fst kv) (fst x)); constructor; try assumption. constructor; assumption.
+Qed.
+
+Lemma sort_attrs_ok l : attrs_ok l -> attrs_ok (sort_attrs l).
+Proof. induction 1 as [|x l Hx Hl IH]; cbn [sort_attrs fold_right]; [constructor|apply insert_attr_ok; assumption]. Qed.
 
 Lemma row_attrs_ok code : attrs_ok (row_attrs code).
 Proof.
-  unfold row_attrs, attrs_ok. repeat (apply Forall_app; split); try (apply bool_attr_ok; name_ok_tac).
-  constructor; [name_ok_tac|constructor].
+  unfold row_attrs. apply sort_attrs_ok. constructor; [name_ok_tac|].
+  unfold Tables.row_flags. cbn [flat_map snd fst].
+  repeat match goal with |- context [if ?b then _ else _] => destruct b end; cbn [app];
+    repeat (constructor; [name_ok_tac|]); constructor.
+Qed.
+
+(* the class is the first attribute written, whatever the flags *)
+Lemma row_attrs_head code : exists rest, row_attrs code = cls "links-list--item" :: rest.
+Proof.
+  unfold row_attrs, Tables.row_flags. cbn [flat_map snd fst].
+  repeat match goal with |- context [if ?b then _ else _] => destruct b end; vm_compute; eexists; reflexivity.
 Qed.
 
 Lemma row_events_ok e : Forall event_ok (events (row_for e)).
@@ -743,7 +758,8 @@ Qed.
 Lemma count_row e : count ev_row_start (events (row_for e)) = 1%nat.
 Proof.
   unfold row_for, el. rewrite events_el. rewrite count_app. cbn [flat_map]. rewrite app_nil_r.
-  rewrite count_cons. change (ev_row_start (EvStart (s2l "tr") (row_attrs (entry_code e)))) with true. cbv iota.
+  rewrite count_cons. destruct (row_attrs_head (entry_code e)) as [rest ->].
+  change (ev_row_start (EvStart (s2l "tr") (cls "links-list--item" :: rest))) with true. cbv iota.
   rewrite !count_app.
   replace (count ev_row_start (events (change_cell (entry_code e)))) with 0%nat
     by (unfold change_cell; destruct (change_info (entry_code e)) as [s [t|]]; reflexivity).
